@@ -178,6 +178,8 @@ impl TableFile {
 			std::slice::from_raw_parts_mut(ptr, buf.len())
 		};
 		data.copy_from_slice(buf);
+		#[cfg(parity_db_verif)]
+		crate::verif::emit("TabWrite", &[1, self.id.as_u16() as u64, offset as u64, buf.len() as u64]);
 		Ok(())
 	}
 
